@@ -912,6 +912,21 @@ pub fn c17(tier: Tier, seed: u64) -> Verdict {
                 }
             }
         }
+        // long texts (a reader that works in pieces: 4 KiB, 64 KiB, 1 MiB), equal and differing at the very end
+        for n in [4097usize, 65_537, 200_000, 1_000_000] {
+            for differ in [false, true] {
+                let mut ops = vec![
+                    Op::PushStr { slot: 0, text: Text::Repeat { n, unit: 'L' }, try_: false },
+                    Op::WithCapacity { slot: 2, n: Size::Abs(n + 100), try_: false },
+                    Op::PushStr { slot: 2, text: Text::Repeat { n: n - 1, unit: 'L' }, try_: false },
+                    Op::Push { slot: 2, ch: if differ { 'M' } else { 'L' }, try_: false },
+                    Op::Clone { slot: 3, from: 2, via: CloneVia::Clone },
+                ];
+                ops.push(Op::Compare { a: 0, b: 2 });
+                ops.push(Op::Compare { a: 3, b: 0 });
+                list.push(History { ops, plan: Plan::default() });
+            }
+        }
         merged.merge(super::enumerators::run_history_list("C17", list.len(), |i| list[i].clone(), rule));
         merged.counters.insert("short_pairs_exhaustive".into(), list.len() as u64);
     }
